@@ -414,7 +414,15 @@ class UserActions(object):
         filled_row_ids[i] = row_id = next_row_id
       elif row_id > 1000000:
         raise ValueError("Row ID too high")
+      elif row_id == 0:
+        raise ValueError("Row ID must be positive")
       next_row_id = max(next_row_id, row_id) + 1
+
+    # Each requested record must get a row of its own: reject ids repeated within the request,
+    # including an automatic id that meets a later explicit one. (An id that already exists in the
+    # table is rejected by the assertion in docactions.BulkAddRecord.)
+    if len(set(filled_row_ids)) != len(filled_row_ids):
+      raise ValueError("Duplicate row ID in request")
 
     # Whenever we add new rows, remember the mapping from any negative row_ids to their final
     # values. This allows the negative_row_ids to be used as Reference values in subsequent
